@@ -338,9 +338,10 @@ def apply_op(ctx, op):
         elif name == "iadd":
             S += [ctx.pool[e] for e in op[3]]
         elif name == "ior":
-            S |= {ctx.pool[e] for e in op[3]}
+            # a set-like argument with a deterministic iteration order (a set of SDK objects iterates by id())
+            S |= dict.fromkeys(ctx.pool[e] for e in op[3]).keys()
         elif name == "isub":
-            S -= {ctx.pool[e] for e in op[3]}
+            S -= dict.fromkeys(ctx.pool[e] for e in op[3]).keys()
         elif name == "setvalue":
             items = [ctx.pool[e] for e in op[3]]
             ns = ctx.owners[o]
@@ -1021,6 +1022,28 @@ def corpus_cases():
     return res
 
 
+def xslice_cases():
+    """directed: every extended slice [a:b:step] with a, b in {None,0,1,-1,2,-3,5} and step in {-1,-2,2,3,-3} on
+    ordered collections of length 0..4 (an ordered user namespace and a SubmodelElementList): deletion, assignment of
+    as many new items as are replaced, and of one item less (size mismatch).  Oracle only (not modelled)."""
+    B = [None, 0, 1, -1, 2, -3, 5]
+    STEPS = [-1, -2, 2, 3, -3]
+    for kind in ("toy_cs", "sml"):
+        pool = [[None if kind == "sml" else f"n{i}", 0, 1, None] for i in range(8)]
+        lc = (0, 1, None) if kind == "sml" else None
+        for L in range(5):
+            pre = [["construct", 0, True, lc, [list(range(L))]]]
+            for a in B:
+                for b in B:
+                    for st in STEPS:
+                        dl = len(range(L)[a:b:st])
+                        ops = [["xdelslice", 0, 0, a, b, st], ["xsetslice", 0, 0, a, b, st, list(range(L, L + dl))]]
+                        if dl >= 1:
+                            ops.append(["xsetslice", 0, 0, a, b, st, list(range(L, L + dl - 1))])
+                        for op in ops:
+                            yield {"kind": kind, "pool": pool, "ops": pre + [op]}
+
+
 def exhaustive_cases():
     """all op sequences of length <= 3 over a small alphabet on an ordered cs namespace and on a list"""
     out = []
@@ -1083,6 +1106,17 @@ def run(chk):
         if sig not in reported:
             reported.add(sig)
             chk.fail(sig, msg, dict(rp, how="tools/c01.py ctor_probe()"))
+    # directed enumeration of extended slices on ordered collections (oracle only)
+    for case in xslice_cases():
+        _, fails = run_sdk(case, with_trace=False)
+        chk.count("directed_extended_slice_cases")
+        chk.evaluations += 1
+        if fails:
+            k, cls, msg = fails[0]
+            sig = signature(case, cls)
+            if sig not in reported:
+                reported.add(sig)
+                chk.fail(sig, msg, {"case": case, "how": "tools/c01.py run_sdk(case): oracle only (xslice_cases)"})
     # oracle-only stream: calls outside the model (extended slices, mixin methods)
     nx = 1500 if chk.tier == "quick" else 8000
     for i in range(nx):
